@@ -43,6 +43,13 @@ var memoLine, memoRes string
 
 // exec runs the real resolver on one op.
 func exec(f []string) string {
+	if len(f) == 3 && f[0] == "classify" {
+		h, err := hypsOf(f[1], f[2])
+		if err != nil {
+			return "bad-op"
+		}
+		return h.String()
+	}
 	if len(f) != 5 || f[0] != "resolve" || !strings.HasPrefix(f[3], "root=") || !strings.HasPrefix(f[4], "fuel=") {
 		return "bad-op"
 	}
